@@ -186,19 +186,31 @@ def flat_cache_key(ctx, rule="DEP-cache-key"):
     while k[0] == "ifexp":
         k = k[2] if k[2][0] != "attr" else k[3]
     ARGS = ("param", "args")
-    shape_dep = False
+    AVAL_WORDS = ("shape", "dtype", "get_aval", "get_shaped_aval", "typeof", "result_type", "ShapedArray", "aval")
+    shape_dep = struct_dep = False
     for x in subterms(k):
-        if is_call(x) and x[1][0] == "name" and any(w in x[1][1] for w in ("shape", "dtype", "get_aval", "tree_structure", "tree_flatten", "get_shaped_aval", "typeof")):
+        # a library function that yields abstract values, called or passed to a map
+        if x[0] == "name" and any(w in x[1].rsplit(".", 1)[-1] for w in AVAL_WORDS):
             shape_dep = True
         if x[0] == "attr" and x[2] in ("shape", "dtype", "aval"):
             shape_dep = True
-        if x[0] == "comp" and any(y[0] == "attr" and y[2] in ("shape", "dtype") for y in subterms(x)):
-            shape_dep = True
+        # the tree structure of (args, kwargs): a treedef, or the keyword names together with the positional count
+        if x[0] == "name" and x[1].rsplit(".", 1)[-1] in ("tree_structure",):
+            struct_dep = True
+        if x[0] == "idx" and is_const(x[2], 1) and is_call(x[1]) and x[1][1][0] == "name" and x[1][1][1].endswith("tree_flatten"):
+            struct_dep = True
+        if is_call(x) and x[1][0] == "attr" and x[1][2] == "keys" and x[1][1] == ("param", "kwargs"):
+            struct_dep = True
     only_len = not shape_dep
     if only_len:
         ctx.bad(rule, "pjax.FlatSamplerCache.get_flat_sampler", f"cache key = {short(k, ev)}",
                 "the cached flat sampler closes over a Jaxpr staged for the first call's argument shapes/dtypes, but the key records only the argument "
                 "count and keyword names: a binder re-used with differently shaped parameters evaluates a stale Jaxpr", func_loc(ctx, dotted))
+    elif not struct_dep:
+        ctx.bad(rule, "pjax.FlatSamplerCache.get_flat_sampler", f"cache key ignores the tree structure of (args, kwargs): {short(k, ev, 120)}",
+                "the cached flat sampler was staged on a particular split of the operands into positional and keyword arguments (keywords are flattened in sorted-name "
+                "order), but the key is built from the flat leaves only: prim(a, b) and prim(shift=a, scale=b) share a key when their leaf avals agree, and the stale "
+                "sampler binds the operands the wrong way round — the seeded result depends on which call style was staged first", func_loc(ctx, dotted))
     else:
         ctx.ok(rule, "pjax.FlatSamplerCache.get_flat_sampler", short(k, ev))
     # every input of the staging call must be covered by the key, unless it is fixed for the lifetime of the cache object (a field of
